@@ -36,11 +36,20 @@ func ruleText(r models.Rule) string {
 	var b strings.Builder
 	fmt.Fprintf(&b, "rule %q %q salience %d\nbegin\n", r.Name, "d_"+r.Name, r.Sal)
 	b.WriteString("  S(@name)\n  gate(@name)\n")
-	if r.SetsTag {
+	switch {
+	case strings.HasPrefix(r.TagCond, "="):
+		b.WriteString("  stag.StopTag = " + r.TagCond[1:] + "\n")
+	case r.TagCond != "":
+		b.WriteString("  if " + r.TagCond + " {\n    stag.StopTag = true\n  }\n")
+	case r.SetsTag:
 		b.WriteString("  stag.StopTag = true\n")
 	}
 	if r.Fails {
-		b.WriteString("  F(@name)\n")
+		if r.FailKind > 0 && r.FailKind < len(failStmts) {
+			b.WriteString("  FX(@name)\n  " + failStmts[r.FailKind] + "\n")
+		} else {
+			b.WriteString("  F(@name)\n")
+		}
 	}
 	b.WriteString("  E(@name)\n")
 	if r.Returns {
@@ -48,6 +57,81 @@ func ruleText(r models.Rule) string {
 	}
 	b.WriteString("end\n")
 	return b.String()
+}
+
+// failStmts are the ways a failing rule fails after it has reported F: index 0 is the
+// panicking injected function F itself, the others follow a non-panicking FX(@name).
+var failStmts = []string{
+	"",
+	"O.Boom()",
+	"O.In.Boom()",
+	"zz = 1 / 0",
+	"nofunc()",
+	"zz = O.In.Boom()",
+	"zz = nosuch + 1",
+	"O.NilIn.Get()",
+	"conc {\n    O.In.Boom()\n  }",
+	"if 1 {\n    zz = 2\n  }",
+	"sl[9] = 1",
+	"zz = \"a\" * 2",
+}
+
+// genBoolText renders a side-effect free boolean condition with the given value from
+// literals, the injected constants tt / ff, comparisons, brackets, negated brackets and
+// && / || whose operands are atoms or (negated) brackets.
+func genBoolText(t *rapid.T, label string, want bool, depth int) string {
+	atom := func(w bool, l string) string {
+		ts := []string{"true", "tt", "!ff", "1 < 2", "tn == 1", "ts == \"s\"", "2.5 >= 2.5"}
+		fs := []string{"false", "ff", "!tt", "2 < 1", "tn != 1", "ts == \"q\"", "2.5 > 3"}
+		if w {
+			return ts[uni(t, l, 0, len(ts)-1)]
+		}
+		return fs[uni(t, l, 0, len(fs)-1)]
+	}
+	if depth <= 0 {
+		return atom(want, label+"a")
+	}
+	operand := func(w bool, l string) string {
+		switch uni(t, l+"o", 0, 3) {
+		case 0:
+			return atom(w, l+"a")
+		case 1:
+			return "(" + genBoolText(t, l+"p", w, depth-1) + ")"
+		default:
+			return "!(" + genBoolText(t, l+"n", !w, depth-1) + ")"
+		}
+	}
+	switch uni(t, label+"k", 0, 4) {
+	case 0:
+		return operand(want, label+"u")
+	case 1, 2:
+		// &&
+		l, r := true, true
+		if !want {
+			switch uni(t, label+"f", 0, 2) {
+			case 0:
+				l = false
+			case 1:
+				r = false
+			default:
+				l, r = false, false
+			}
+		}
+		return operand(l, label+"l") + " && " + operand(r, label+"r")
+	default:
+		l, r := false, false
+		if want {
+			switch uni(t, label+"f", 0, 2) {
+			case 0:
+				l = true
+			case 1:
+				r = true
+			default:
+				l, r = true, true
+			}
+		}
+		return operand(l, label+"l") + " || " + operand(r, label+"r")
+	}
 }
 
 func literal(v interface{}) string {
@@ -108,6 +192,13 @@ func (e *schedEnv) apis() map[string]interface{} {
 		"F":    func(n string) { e.log.Add("F", n, 0); panic("injected failure in " + n) },
 		"gate": func(n string) { e.gates.Enter(n) },
 		"STALE": func(n string) { e.log.Add("STALE", n, 0) },
+		"FX":    func(n string) { e.log.Add("F", n, 0) },
+		"O":     &FObj{V: 1, In: &FObj{V: 2}},
+		"sl":    []int64{1, 2},
+		"tt":    true,
+		"ff":    false,
+		"tn":    int64(1),
+		"ts":    "s",
 	}
 }
 
@@ -234,7 +325,18 @@ func genRules(t *rapid.T, minN, maxN int, failP, tagP, retP int) []models.Rule {
 		}
 		r := models.Rule{Name: name, Sal: genSal(t, fmt.Sprintf("sal%d", i))}
 		r.Fails = pct(t, fmt.Sprintf("fail%d", i), failP)
+		if r.Fails && pct(t, fmt.Sprintf("failkind%d", i), 40) {
+			r.FailKind = uni(t, fmt.Sprintf("fk%d", i), 1, len(failStmts)-1)
+		}
 		r.SetsTag = pct(t, fmt.Sprintf("tag%d", i), tagP)
+		if tagP > 0 && r.SetsTag && pct(t, fmt.Sprintf("tagcond%d", i), 50) {
+			r.TagCond = genBoolText(t, fmt.Sprintf("tc%d_", i), true, 3)
+			if pct(t, fmt.Sprintf("tagassign%d", i), 35) {
+				r.TagCond = "=" + r.TagCond
+			}
+		} else if tagP > 0 && !r.SetsTag && pct(t, fmt.Sprintf("notagcond%d", i), 8) {
+			r.TagCond = genBoolText(t, fmt.Sprintf("tc%d_", i), false, 3)
+		}
 		if pct(t, fmt.Sprintf("ret%d", i), retP) {
 			r.Returns = true
 			r.RetVal = int64(1000 + i)
@@ -394,6 +496,24 @@ func min(a, b int) int {
 // reference model. It returns the model input for property-specific extra clauses.
 func checkSched(x *Ctx, c *SchedCase) (*models.Input, bool) {
 	env := newSchedEnv()
+	for _, r := range c.Rules {
+		if r.Fails && r.FailKind > 0 {
+			x.Class("failing-statement:" + strings.SplitN(failStmts[r.FailKind%len(failStmts)], "\n", 2)[0])
+		}
+		if r.TagCond != "" {
+			switch {
+			case strings.HasPrefix(r.TagCond, "="):
+				x.Class("tag-assigned-from-condition")
+			case r.SetsTag:
+				x.Class("tag-set-under-true-condition")
+			default:
+				x.Class("tag-store-under-false-condition")
+			}
+			if strings.Contains(r.TagCond, "!(") {
+				x.Class("tag-condition-with-negated-bracket")
+			}
+		}
+	}
 	tg, err := install(c, env)
 	if err != nil {
 		x.Violation("install", "valid generated rule text was rejected: %v", err)
